@@ -708,6 +708,47 @@ func genC12(o *cw) {
 		o.c("evalall", d, "/", "-", s, "", "anyeval")
 		o.c("selall", d, "/", "-", "reverse("+s+")", "", "anyreverse")
 	}
+	// the CURSOR-LEVEL model (Model1/Iter3.v, kinds sel3all / eval3all): the transliterated
+	// Select / Evaluate methods against the code, exact sequences, every start node
+	cds := ctxDocs(o)
+	cur := func(kind, s, tag string) {
+		o.c(kind, ds[g.r.Intn(len(ds))], "/", "-", s, "", tag)
+		o.c(kind, cds[g.r.Intn(len(cds))], "/", "-", s, "", tag)
+	}
+	for i := 0; i < 160*o.tier; i++ {
+		m := both[i%2]
+		cur("sel3all", gen.Str(g.flatPath(4, 40), m), "cursor-flat")
+		p := ga.relPath(allAxes, 2, 3, 45)
+		o.features(p)
+		cur("sel3all", gen.Str(p, m), "cursor-path")
+		cur("eval3all", gen.Str(p, m), "cursor-path-eval")
+		cur("sel3all", gen.Str(gen.Bin{Op: "|", L: ga.relPath(allAxes, 1, 2, 30), R: ga.relPath(allAxes, 1, 2, 30)}, m), "cursor-union")
+		st := gen.Step{Axis: "child", Test: g.r.Pick([]string{"a", "*", "p", "node()"}), DSlash: g.r.Chance(40), Preds: []gen.Ex{g.posPred()}}
+		if g.r.Chance(40) {
+			st.Preds = append(st.Preds, ga.boolPred(1))
+		}
+		cur("sel3all", gen.Str(gen.Path{Abs: g.r.Chance(50), Steps: []gen.Step{{Axis: "child", Test: "*"}, st}}, m), "cursor-positional")
+		cur("sel3all", gen.Str(gen.Filter{E: gen.Paren{E: ga.relPath(allAxes, 1, 2, 20)}, Preds: []gen.Ex{num(1 + g.r.Intn(3))}}, m), "cursor-group")
+		cur("eval3all", gen.Str(ga.aexp(2), m), "cursor-arith")
+		cur("eval3all", gen.Str(ga.sExpr(2), m), "cursor-string")
+		cur("eval3all", gen.Str(gen.Bin{Op: cmpOps[g.r.Intn(6)], L: ga.anyOperand(), R: ga.anyOperand()}, m), "cursor-compare")
+		cur("eval3all", gen.Str(ga.ctxRestore([]string{"bool", "cmp", "arith", "union", "string"}[i%5]), m), "cursor-ctxrestore")
+		fs := ga.funcsOverArg(ga.statefulArg(), []string{"numeric", "string", "name", "bool", "seq"}[i%5])
+		cur("eval3all", gen.Str(fs[g.r.Intn(len(fs))], m), "cursor-statefularg")
+		cur("sel3all", "//*["+gen.Str(ga.boolPred(2), m)+"]", "cursor-pred")
+	}
+	// last() after another predicate (lastFuncQuery): the list-level model is NOT faithful here
+	// (DESIGN 9.3), the cursor-level model is; compared with the cursor-level model only
+	for _, e := range []string{"*[true()][last()]", "*/*[true()][last()]", "//*[true()][last()]", "/*/*[true()][last()]", "a[@x][last()]", "//a[b][last()]",
+		"*[true()][last() - 1]", "//p/a[@x][position() = last()]", "(//a)[true()][last()]", "//*[*][last()]/*", "count(//*[true()][last()])", "*[node()][last()] | @*"} {
+		for _, d := range append(append([]*dref{}, ds[:6]...), cds...) {
+			if strings.HasPrefix(e, "count(") {
+				o.c("eval3all", d, "/", "-", e, "", "cursor-lastfunc")
+			} else {
+				o.c("sel3all", d, "/", "-", e, "", "cursor-lastfunc")
+			}
+		}
+	}
 }
 
 func advDocs(o *cw) []*dref {
